@@ -175,6 +175,14 @@ func vfC13Scenarios(thorough bool) []*vfGWScenario {
 			Validators: []vfValCfg{{Name: "V", Topic: "t", Gated: true, GateOnly: []string{"m1"}}}},
 			Alphabet: []string{"outreset:p", "adv:1100", "graft:p:t", "prune:p:t", "inclose:p", "inopen:p", "sub:p:t", "disc:p", "conn:p", "hb"}, Msgs: msgs, Depth: d, Leaf: []string{"retire"}})
 	}
+	// a mesh member the node has no outbound stream to (still being opened, or failed for good) when the node leaves
+	// the topic: whatever was installed for it has to go although there is nobody to send the PRUNE to
+	{
+		peers := []vfPeerCfg{{Name: "p", Proto: "v12", IP: "10.0.0.1"}, {Name: "q", Proto: "v12", IP: "10.0.0.2"}}
+		out = append(out, &vfGWScenario{Name: "leave-queueless", Cfg: vfGWCfg{Router: "gossip", Peers: peers, Topics: []string{"t"}, Params: "d2", Scoring: true, ScoreTopics: true,
+			Gater: true, TestExt: true, DecayMs: 1030, ScoreSeenS: 5, SeenTTL: 5, Prefix: []string{"conn:q", "sub:q:t", "join:t"}},
+			Alphabet: []string{"hold:p", "failstream:p", "conn:p", "release:p", "sub:p:t", "graft:p:t", "leave:t", "join:t", "inclose:p", "disc:p", "hb"}, Msgs: msgs, Depth: d, Leaf: []string{"retire"}})
+	}
 	// two peers behind one IP address (the gater and the scorer keep per-IP state shared between them)
 	for _, proto := range []string{"v11"} {
 		peers := []vfPeerCfg{{Name: "p", Proto: proto, IP: "10.0.0.1"}, {Name: "q", Proto: "v12", IP: "10.0.0.1"}}
